@@ -273,6 +273,17 @@ func (m *LeaseManager) Owns(resourceID string) bool {
 	return ok
 }
 
+// Revision returns the etcd revision at which the currently held lease for the
+// resource was written, and false if this broker does not hold it. Every
+// acquisition yields a new revision, so callers can use it to tell one
+// ownership period from the next.
+func (m *LeaseManager) Revision(resourceID string) (int64, bool) {
+	m.mu.RLock()
+	rev, ok := m.owned[resourceID]
+	m.mu.RUnlock()
+	return rev, ok
+}
+
 // Release explicitly gives up ownership of a single resource.
 //
 // The etcd key is removed only if it is still the one written by the acquire
